@@ -112,12 +112,20 @@ def run(ctx):
         acts = ('Submit', 'EndSubmit', 'Begin', 'Check', 'ParseFail', 'Report', 'End', 'Collect', 'SerialReturn', 'Output')
         with open(os.path.join(SPEC, 'MC_LintQueue.cfg')) as fh:
             text = fh.read()
-        variants = [('MaxN = 4', 'NH = 1'), ('MaxN = 3', 'NH = 2')] if quick else [('MaxN = 4', 'NH = 2')]
-        for i, (a, b) in enumerate(variants):
-            cfg = os.path.join(ctx.work, f'MC_LintQueue_run{i}.cfg')
+        if quick:
+            # <= 4 files with one handler: safety; <= 3 files with two handlers: safety + liveness
+            # (thorough: <= 4 files, two handlers, safety + liveness)
+            variants = [text.replace('NH = 2', 'NH = 1').replace('PROPERTY EventuallyDone\n', ''), text.replace('MaxN = 4', 'MaxN = 3')]
+        else:
+            variants = [text]
+
+        def one(iv):
+            cfg = os.path.join(ctx.work, f'MC_LintQueue_run{iv[0]}.cfg')
             with open(cfg, 'w') as fh:
-                fh.write(text.replace('MaxN = 4', a).replace('NH = 2', b))
-            ctx.mc('MC_LintQueue', cfg, timeout=2400, workers=8, required_actions=acts)
+                fh.write(iv[1])
+            ctx.mc('MC_LintQueue', cfg, timeout=3000, workers=6, required_actions=acts)
+        with cf.ThreadPoolExecutor(max_workers=2) as mex:
+            list(mex.map(one, enumerate(variants)))
     # development only (mutation testing of the conformance part): VERIF_DEV_SKIP_MC=1 skips the spec-level run
     mc_future = pool.submit((lambda: None) if os.environ.get('VERIF_DEV_SKIP_MC') else mc_all)
 
@@ -214,3 +222,55 @@ def run(ctx):
         'unparsable files: the report must be a single non-rule problem without location; its message is compared across runs only',
         'each file set is linted in a fresh python process (fork start method); at-return outputs are read inside that process, final outputs after it exited',
     ]
+
+
+def selftest(ctx):
+    """Sensitivity of Trace_LintQueue (no Loki involved): a hand-written good run is accepted, every
+    corruption of a recorded field is rejected by the expected clause."""
+    import copy
+    rep = [['M1AssignRule', '4', 'assignment to viol_0']]
+    err = [['FortranSyntaxError', '0', 'at line 1']]
+
+    def ev(a, f, w, seq, items=(), ncoll=0):
+        return {'a': a, 'f': f, 'w': w, 'seq': seq, 'items': [list(i) for i in items], 'ncoll': ncoll}
+    outs = {'probe': [['a.F90', ['x']], ['b.F90', ['y']]], 'default': ['m1', 'm2'], 'junit': [['a.F90', ['t']]],
+            'violations': [['a.F90', ['M1AssignRule']]]}
+    good = {'scen': 'plain', 'W': 2, 'n': 2,
+            'files': [{'name': 'a.F90', 'fails': False, 'rep': rep}, {'name': 'b.F90', 'fails': True, 'rep': []}],
+            'rules': ['A0BeginRule', 'M1AssignRule', 'M2RoutineRule', 'Z9EndRule'],
+            'events': [ev('begin', 1, 11, 1), ev('report', 2, 12, 1, err, 1), ev('end', 1, 11, 2),
+                       ev('report', 1, 11, 3, rep, 1), ev('collect', 0, 0, 1)],
+            'extra': 0, 'count': 1, 'base_count': 1, 'raised': False, 'base_raised': False,
+            'outs': outs, 'base_outs': copy.deepcopy(outs), 'ret_outs': outs, 'base_ret_outs': copy.deepcopy(outs)}
+    cases, expect = [good], ['ok']
+
+    def add(clause, fn):
+        c = copy.deepcopy(good)
+        fn(c)
+        cases.append(c)
+        expect.append(clause)
+    add('P-ReportIsFunctionOfFile:wrong-violations', lambda c: c['events'][3]['items'][0].__setitem__(1, '5'))
+    add('P-ReportIsFunctionOfFile:wrong-violations', lambda c: c['events'][3].update(items=[]))
+    add('P-ReportIsFunctionOfFile:parse-failure', lambda c: c['events'][1].update(items=[]))
+    add('P-CollectedEqualsReported:lost-report', lambda c: c['events'][3].update(ncoll=0))
+    add('P-CollectedEqualsReported:extra-entry', lambda c: c.update(extra=1))
+    add('P-EachFileOnce:second-report', lambda c: c['events'].insert(4, ev('report', 2, 12, 2, err, 1)))
+    add('P-EachFileOnce:second-begin', lambda c: c['events'].insert(4, ev('begin', 1, 12, 2)))
+    add('P-EachFileOnce:file-not-checked', lambda c: c['events'].pop(1))
+    add('P-EachFileOnce:unselected-file-checked', lambda c: c['events'].insert(4, ev('begin', 0, 12, 2)))
+    add('P-OutputsSameAsSerial:junit:final', lambda c: c['outs'].update(junit=[]))
+    add('P-OutputsSameAsSerial:probe:final', lambda c: c['outs'].update(probe=[['a.F90', ['x']]]))
+    add('P-OutputsSameAsSerial:checked-count', lambda c: c.update(count=2))
+    add('P-OutputsSameAsSerial:violations:at-return', lambda c: c.update(ret_outs=dict(c['ret_outs'], violations=[])))
+    add('M-seq-not-monotone', lambda c: c['events'][3].update(seq=1))
+    add('M-report-before-end', lambda c: c['events'].insert(2, c['events'].pop(3)))
+    add('M-wrong-process', lambda c: c['events'][0].update(w=0))
+    verdicts = ctx.validate('Trace_LintQueue', 'Trace_LintQueue', cases, timeout=300)
+    bad = 0
+    for i, exp in enumerate(expect):
+        ok, clause, _ = verdicts[i]
+        got = 'ok' if ok else clause
+        flag = 'ok ' if got == exp else 'BAD'
+        bad += got != exp
+        print(f'selftest C42 {flag} case {i}: expected {exp}, TLC said {got}')
+    return 1 if bad else 0
